@@ -144,6 +144,18 @@ CHECKS["C14"] = dict(level="model_checking", ref="DESIGN.md §4 C14, §9",
          "P22e: remote event subscriptions still register after the reply. Proxy connections are not covered.",
     tech="TLA+ model RemoteRel model-checked by TLC; fault cases recorded on two real nodes behind a holding relay validated by TLC against spec/NetDown.tla")
 
+CHECKS["C15"] = dict(level="model_checking", ref="DESIGN.md §4 C15, §9",
+    text="TLA+ symbolic model Handshake (Start / Accept / Join message by message, fresh salts, digests over the cookie, an intruder that records, replays and "
+         "forges but does not know the cookie) is model-checked: AcceptorAuth, InitiatorAuth, JoinAuth hold; the Join replay is the counterexample TLC must find "
+         "(known finding P10c). Conformance on real nodes, judged by TLC with spec/Access.tla: (a) cookie matrix node x acceptor x route cookie on real pairs - "
+         "connected iff the effective cookies are equal - and agreement of both ends on name, incarnation, flags and size limit; (b) a raw TCP peer replays the "
+         "bytes the relay recorded from an honest node (whole Start side, cut after 1-3 messages, the Join of a pooled link), sends garbage and truncated messages: it "
+         "never passes the step that needs the cookie, nothing it sends reaches a process, honest nodes still connect; (c) Enable/Disable Spawn/ApplicationStart "
+         "histories (systematic and seeded random) with two real peers: an attempt succeeds only for a peer the history enabled and did not disable, only if the "
+         "acceptor's flags allow it, and the requester's environment is visible only with exposure on.",
+    note="Trusted: TLC; SHA-256 as perfect hash. Over-denial (a peer enabled by the history but refused) is not judged. TLS fingerprints and proxy routes are not covered.",
+    tech="TLA+ symbolic model Handshake model-checked by TLC; cookie / replay / permission cases recorded on real nodes validated by TLC against spec/Access.tla")
+
 NOT_YET = {
 }
 
